@@ -20,7 +20,7 @@ from . import kern
 
 LAW = "C12"
 N0 = 10
-N_LIM = 40
+N_LIM = 80
 
 
 def _iter_fn(cell, rng):
